@@ -33,17 +33,21 @@ POOL.update(
         "O1": (["e-", "oH2+"], ["H", "oH2"], (-1.0, -1.0), "GAS_TWOBODY"),
         "S0": (["He+", "E"], ["He"], (-1.0, -1.0), "GAS_TWOBODY"),
         "S1": (["E", "He+"], ["He"], (-1.0, -1.0), "GAS_TWOBODY"),
+        # the same reaction as E0 with the electron in its other spelling: one species, two names.  Equal for the
+        # species-based modes (default, brief); the string modes compare names (documented caveat) and keep them apart
+        "E2": (["H+", "e-"], ["H"], (-1.0, -1.0), "GAS_TWOBODY"),
     }
 )
-IDS2 = ["E0", "E1", "O0", "O1", "S0", "S1", "A0", "A3", "A7"]
-IDS = [k for k in POOL if k not in ("E0", "E1", "O0", "O1", "S0", "S1", "A7")]
+IDS2 = ["E0", "E1", "E2", "O0", "O1", "S0", "S1", "A0", "A3", "A7"]
+IDS = [k for k in POOL if k not in ("E0", "E1", "E2", "O0", "O1", "S0", "S1", "A7")]
 MODES = [None, "brief", "minimal", "short"]
 
 
 def related(a, b, mode):
     ra, pa, wa, ta = POOL[a]
     rb, pb, wb, tb = POOL[b]
-    same_rp = sorted(ra) == sorted(rb) and sorted(pa) == sorted(pb)
+    ident = (lambda x: "e-" if x == "E" else x) if mode in (None, "brief") else (lambda x: x)  # species identity vs printed name
+    same_rp = sorted(map(ident, ra)) == sorted(map(ident, rb)) and sorted(map(ident, pa)) == sorted(map(ident, pb))
     if mode in ("brief", "minimal"):
         return same_rp
     if mode == "short":
